@@ -84,7 +84,9 @@ def check(case, stats=None):
                 return True
             if m in start_refused:
                 return True
-            if a == "R" and in_loop(cs) and pills.get(m, 0) > 0:
+            # (a PAUSED recipient is reached by its pill when the loop stops: its mailbox is discarded there and the pill in it
+            # still takes effect)
+            if in_loop(cs) and pills.get(m, 0) > 0:
                 pills[m] -= 1
                 return True
             return False
